@@ -15,24 +15,22 @@
 (***************************************************************************)
 EXTENDS Generator, Json, TLCExt
 CONSTANTS MaxStack, MaxSize, MaxDepth, DoExport, ExportAtLevel     \* ExportAtLevel = 0: every transition; k: only transitions out of level k (simulation)
-VARIABLES g, mst, ret, lastpub, good, hist
-vars == <<g, mst, ret, lastpub, good, hist>>
+VARIABLES g, mst, good, hist
+vars == <<g, mst, good, hist>>
 
 ClaimA == Imp(CMV(0), Imp(CMV(1), CMV(0)))          \* = Prop1
 ClaimB == Imp(Imp(Imp(CMV(0), NInst(Mu(0, SV(0)), <<>>)), NInst(Mu(0, SV(0)), <<>>)), CMV(0))   \* = Prop3, with notation
 Blank(phase) ==
   [g |-> [GInit(<<ClaimA, ClaimB>>) EXCEPT !.phase = phase],
    mst |-> [InitState(phase) EXCEPT !.claims = IF phase = "proof" THEN <<Expand(ClaimB), Expand(ClaimA)>> ELSE <<>>],
-   ret |-> 0, lastpub |-> FALSE, good |-> TRUE]
+   good |-> TRUE]
 IsPublish(c) == c.m \in {"publish_axiom", "publish_claim", "publish_proof"}
 IsSwitch(c)  == c.m \in {"into_claim_phase", "into_proof_phase"}
 \* one call on a composite state (tracker accepts by construction of Calls; preludes are accepted too)
 Apply(w, c) ==
   LET r == GStep(w.g, c)
       m0 == IF IsSwitch(c) THEN [ok |-> TRUE, st |-> NextPhase(w.mst)] ELSE RunPhase(r.bytes, w.mst)
-      ret2 == IF IsSwitch(c) THEN 0 ELSE IF IsPublish(c) THEN w.ret + 1 ELSE w.ret
-  IN [g |-> r.g, mst |-> m0.st, ret |-> ret2, lastpub |-> IsPublish(c),
-      good |-> r.ok /\ m0.ok /\ Rel(r.g, m0.st, ret2, IsPublish(c))]
+  IN [g |-> r.g, mst |-> m0.st, good |-> r.ok /\ m0.ok /\ Rel(r.g, m0.st)]
 RECURSIVE Fold(_, _)
 Fold(w, cs) == IF cs = <<>> THEN w ELSE Fold(Apply(w, Head(cs)), Tail(cs))
 CleanMV(i) == Call("metavar", i, Bot, Bot, <<>>, <<<<>>, <<>>, <<>>, <<>>, <<>>>>)
@@ -47,7 +45,7 @@ Preludes ==
    <<"proof", <<C1("svar", 0), CT("mu", 0, SV(0), Bot), Call("instantiate_pattern", 0, Mu(0, SV(0)), Bot, <<>>, <<>>), CleanMV(0)>>>>}
 Init == \E pr \in Preludes :
           LET w == Fold(Blank(pr[1]), pr[2]) IN
-          /\ g = w.g /\ mst = w.mst /\ ret = w.ret /\ lastpub = w.lastpub /\ good = w.good
+          /\ g = w.g /\ mst = w.mst /\ good = w.good
           /\ hist = [phase |-> pr[1], calls |-> pr[2]]
 
 S == g.stack
@@ -92,8 +90,8 @@ Next ==
   /\ good
   /\ \E c \in Calls :
        /\ GStep(g, c).ok
-       /\ LET w == Apply([g |-> g, mst |-> mst, ret |-> ret, lastpub |-> lastpub, good |-> good], c) IN
-          /\ g' = w.g /\ mst' = w.mst /\ ret' = w.ret /\ lastpub' = w.lastpub /\ good' = w.good
+       /\ LET w == Apply([g |-> g, mst |-> mst, good |-> good], c) IN
+          /\ g' = w.g /\ mst' = w.mst /\ good' = w.good
           /\ hist' = [hist EXCEPT !.calls = Append(@, c)]
 Spec == Init /\ [][Next]_vars
 
@@ -101,7 +99,7 @@ Bounded == /\ Len(g.stack) <= MaxStack
            /\ \A k \in 1..Len(g.stack) : Size(Expand(g.stack[k].p)) <= MaxSize
            /\ Len(g.memory) <= 2
            /\ TLCGet("level") <= MaxDepth
-View == <<g, mst, ret, lastpub, good>>
+View == <<g, mst, good>>
 Export == IF DoExport /\ (ExportAtLevel = 0 \/ TLCGet("level") = ExportAtLevel \/ ~good') THEN PrintT("SEQ " \o ToJson([phase |-> hist'.phase, good |-> good', calls |-> hist'.calls])) ELSE TRUE
 Bad == ~good          \* counted, not an error: see the module comment
 =============================================================================
